@@ -47,13 +47,21 @@ ANCHORS = [("deap/algorithms.py", []), ("deap/tools/support.py", ["HallOfFame", 
            ("deap/creator.py", []), ("deap/gp.py", ["MetaEphemeral", "Primitive", "Terminal", "PrimitiveTree"]),
            ("deap/base.py", ["Toolbox", "Fitness"]), ("doc/tutorials/advanced/checkpoint.rst", [])]
 LEVEL = "partial"
-RULE = ("families (harness/props/c17_families.py): GA on lists, NSGA-II, SPEA2, NSGA-III with memory, GP with ephemerals, CMA-ES, (1+lambda)-CMA, "
-        "MO-CMA-ES (NSGA-II always with ngen=10, MU=16 and every crash point; variants of the three CMA strategies built from caller-owned shared cmatrix / centroid / parent / population objects for (a)), plus the four packaged loops of deap.algorithms for (a) and (c) (quick: det for all, crash for GA, NSGA-III with memory, GP, CMA-ES + one more chosen by the seed; thorough: everything for all 8 x 3 seeds); crash points: every "
-        "generation 0..ngen; pickle protocols: two (quick) / all 0..5 (thorough); pools of 1,2,4,8 workers with "
-        "random per-task delays; all 24 permutations of the 4-task map calls of the small variants. "
-        "Non-trivial = every case (each is a complete run)")
+RULE = ("13 families (harness/props/c17_families.py): GA on lists, NSGA-II (ngen=10, MU=16), SPEA2, NSGA-III with "
+        "memory, GP with ephemerals (node replacement / ephemeral / insert / shrink mutations, tight staticLimit, ngen=6), "
+        "CMA-ES (array individuals), (1+lambda)-CMA, MO-CMA-ES with mu = lambda, mu < lambda and mu > lambda, ES on "
+        "float32 numpy individuals, CMA-ES N=30 lambda=6 (ngen=6), GA with MultiStatistics chapters whose logbook is "
+        "streamed every 2 generations; 3 variants built from caller-owned shared cmatrix/centroid/parent/population "
+        "and the 4 packaged loops of deap.algorithms for (a) and (c).  EVERY tier: (a) det for all 20; (b) kill/resume "
+        "for ALL 13 families at EVERY generation 0..ngen (quick: ngen=3 unless stated, two pickle protocols per crash "
+        "point rotating so that all six occur; thorough: ngen=6, all six protocols, 3 seeds); (c) fork pools with worker "
+        "counts 1..8 (quick: all eight for GA and eaSimple, three per other family) and one spawn pool, random per-task "
+        "delays; all 24 permutations of the 4-task map calls of the small variants + reverse/rotate/random schedules. "
+        "The seed never selects families or clauses. Non-trivial = every case (each is a complete run)")
 EXHAUSTIVE = {"quick": False, "thorough": False}
-TIME_BUDGET = {"quick": 100, "thorough": 900}
+TIME_BUDGET = {"quick": 120, "thorough": 1200}
+CASE_TIMEOUT = 600
+MIN_CASES = 300
 TRUSTED = ["the operating system: SIGKILL ends the worker at once, a new process starts from nothing but the "
            "checkpoint file; multiprocessing.Pool.map is an order-preserving map",
            "fingerprints (harness/props/c17_families.py) describe the complete observable state: genomes, fitness, "
@@ -63,7 +71,11 @@ ASSUMPTIONS = ["evaluation functions are pure (they neither draw random numbers 
                "'order-preserving parallel map gives the same results' presupposes",
                "the user re-creates classes, primitive sets and toolbox by importing the same module in the new "
                "process (code is not part of a checkpoint), as in doc/tutorials/advanced/checkpoint.rst"]
-EXPLANATION = ("partial, and the weakest of the twenty in its Lean part: the theorems are the algebra of "
+EXPLANATION = ("The protocol lines of this check (pmap with a schedule, toy resume) validate ONLY the driver's algebra "
+               "against harness-local helpers (slot_map, a toy step; schedules partly taken from completion orders "
+               "observed in the real pool runs): they are tied to nothing in /repo.  The tie to DEAP is the "
+               "process-level oracle (det / crash / pool / perm), which runs the real library.  "
+               "partial, and the weakest of the twenty in its Lean part: the theorems are the algebra of "
                "checkpointing (deterministic, resume, resume_many) and of order-preserving maps "
                "(schedule_independent, loop_schedule_independent).  That the real objects pickle their complete "
                "state, that no operator keeps state outside the two generators, and that a killed process loses "
@@ -250,7 +262,14 @@ def eval_pool(d):
     if orc:
         orc = "family=%s seed=%d ngen=%d workers=%d delay-seed=%d: %s" % (fam, seed, ngen, w, d["dseed"], orc)
     nonid = sum(1 for o in orders if list(o) != sorted(o))
-    return Case(d, [], [], orc, tag="pool/%s/w=%d/%s/out-of-order-calls=%s" % (
+    lines, expect = [], []
+    obs = sorted(o for o in orders if list(o) != sorted(o))[:1] or sorted(orders)[:1]
+    for o in obs:          # a completion order the real pool produced, replayed through the model of the ordered map
+        xs = [((seed + 5 * i) % 19) - 9 for i in range(len(o))]
+        got = slot_map(lambda x: 3 * x + 1, xs, list(o))
+        lines.append("C17 pmap %s %s" % (",".join(map(str, xs)) or "-", ",".join(map(str, o)) or "-"))
+        expect.append("none" if got is None else (",".join(map(str, got)) or "-"))
+    return Case(d, lines, expect, orc, tag="pool/%s/w=%d/%s/out-of-order-calls=%s" % (
         fam, w, d.get("start", "fork"), "0" if nonid == 0 else "1+"))
 
 
@@ -370,16 +389,53 @@ def evaluate(d):
 
 # ---- generation ---------------------------------------------------------------------------------------------------
 
+ALL_W = [1, 2, 3, 4, 5, 6, 7, 8]
+
+
 def generate(tier, rng, mult):
+    """WHICH families / clauses run never depends on the seed: seeds vary the run seeds, the delay seeds, the hash
+    seeds and the ROTATION of pickle protocols over the crash points (quick: two protocols per crash point, all six
+    protocols occur along every family's crash points)."""
     thorough = tier == "thorough"
     seeds = [rng.randint(0, 10 ** 6) for _ in range(3 if thorough else 1)]
-    ngen = 6 if thorough else 4
-    fams = list(F.ORDER)
-    # crowding distances on the fitness, selector memory, ephemerals, strategy + array individuals
-    core = ["nsga2", "ga_list", "nsga3_mem", "gp_eph", "cma_es"]
-    crash_fams = fams if thorough else core + rng.sample([f for f in fams if f not in core], 1)
+    ngen = 6 if thorough else 3
+    fams = list(F.ORDER) + list(F.EXTRA)
     hs = rng.randint(1, 10 ** 6)
-    # the algebra
+    off = rng.randint(0, 5)
+    # (a) determinism, every family (incl. the shared-input variants and the packaged loops)
+    for s in seeds:
+        for f in F.SHARED + fams + F.PACKAGED:
+            yield {"k": "det", "family": f, "seed": s, "ngen": F.ngen_for(f, ngen), "hs": hs}
+    # (b) EVERY family, every crash point
+    for s in seeds:
+        for f in fams + (["cma_es_shared"] if thorough else []):
+            ng = F.ngen_for(f, ngen)
+            for g in range(0, ng + 1):
+                protos = PROTOCOLS if thorough else sorted(set([(off + g) % 6, (off + g + 3) % 6]))
+                yield {"k": "crash", "family": f, "seed": s, "ngen": ng, "g": g, "protos": protos, "hs": hs + g}
+    # (c) pools: worker counts 1..8 (quick: all eight for two families, three per family for the others, assigned by
+    #     the family's position, not by the seed); one "spawn" pool
+    for s in seeds[:1]:
+        for i, f in enumerate(fams + F.PACKAGED):
+            ws = ALL_W if (thorough or f in ("ga_list", "pk_simple")) else [ALL_W[(3 * i + j) % 8] for j in range(3)]
+            for w in ws:
+                yield {"k": "pool", "family": f, "seed": s, "ngen": min(F.ngen_for(f, ngen), 4), "w": w,
+                       "dseed": rng.randint(0, 10 ** 6), "start": "fork"}
+        for f in (fams[:3] if thorough else fams[:1]):
+            yield {"k": "pool", "family": f, "seed": s, "ngen": 2, "w": 2, "dseed": rng.randint(0, 10 ** 6),
+                   "start": "spawn"}
+    # (c) adversarial permutations: all 24 orders of the 4-task calls of the small variants, plus structured ones
+    for s in seeds[:1]:
+        for f in fams:
+            for i in range(24):
+                yield {"k": "perm", "family": f + ":s", "seed": s, "ngen": 3, "mode": "lex:%d" % i}
+            for mode in ("reverse", "rotate", "random"):
+                yield {"k": "perm", "family": f, "seed": s, "ngen": F.ngen_for(f, ngen), "mode": mode,
+                       "pseed": rng.randint(0, 999)}
+        for f in F.PACKAGED:
+            for mode in ("reverse", "rotate", "random", "random"):
+                yield {"k": "perm", "family": f, "seed": s, "ngen": ngen, "mode": mode, "pseed": rng.randint(0, 999)}
+    # the algebra of the driver (see EXPLANATION: these lines are tied to nothing in /repo)
     for _ in range(300 if thorough else 60):
         n = rng.randint(0, 6)
         xs = [rng.randint(-20, 20) for _ in range(n)]
@@ -397,38 +453,6 @@ def generate(tier, rng, mult):
         n = rng.randint(0, 8)
         yield {"k": "toy", "n": n, "at": rng.randint(0, n), "a": rng.randint(-5, 5), "b": rng.randint(-5, 5),
                "drop": rng.random() < 0.4, "proto": rng.choice(PROTOCOLS)}
-    # (a) determinism, every family
-    for s in seeds + ([] if thorough else [rng.randint(0, 10 ** 6)]):
-        for f in F.SHARED + fams + F.PACKAGED:
-            yield {"k": "det", "family": f, "seed": s, "ngen": F.ngen_for(f, ngen), "hs": hs}
-    # (b) every crash point
-    for s in seeds:
-        for f in crash_fams + (["cma_es_shared"] if thorough else []):
-            ng = F.ngen_for(f, ngen)
-            for g in range(0, ng + 1):
-                protos = PROTOCOLS if thorough else sorted(set([rng.choice([0, 1, 2]), rng.choice([3, 4, 5])]))
-                yield {"k": "crash", "family": f, "seed": s, "ngen": ng, "g": g, "protos": protos, "hs": hs + g}
-    # (c) pools
-    for s in seeds[:1]:
-        for f in (fams if thorough else crash_fams) + F.PACKAGED:
-            for w in (1, 2, 4, 8):
-                yield {"k": "pool", "family": f, "seed": s, "ngen": F.ngen_for(f, ngen), "w": w, "dseed": rng.randint(0, 10 ** 6),
-                       "start": "fork"}
-        if thorough:
-            for f in fams[:2]:
-                yield {"k": "pool", "family": f, "seed": s, "ngen": 2, "w": 2, "dseed": rng.randint(0, 10 ** 6),
-                       "start": "spawn"}
-    # (c) adversarial permutations: all 24 orders of the 4-task calls of the small variants, plus structured ones
-    for s in seeds[:1]:
-        for f in fams:
-            for i in range(24):
-                yield {"k": "perm", "family": f + ":s", "seed": s, "ngen": 3, "mode": "lex:%d" % i}
-            for mode in ("reverse", "rotate", "random"):
-                yield {"k": "perm", "family": f, "seed": s, "ngen": F.ngen_for(f, ngen), "mode": mode,
-                       "pseed": rng.randint(0, 999)}
-        for f in F.PACKAGED:
-            for mode in ("reverse", "rotate", "random", "random"):
-                yield {"k": "perm", "family": f, "seed": s, "ngen": ngen, "mode": mode, "pseed": rng.randint(0, 999)}
     if thorough:
         for s in seeds:
             for f in fams:
